@@ -237,7 +237,7 @@ func properties() map[string]*PropertySpec {
 			}
 			return out
 		},
-		Bounds:  []string{"word count n in {12,15,18,21,24}", "at most R Read calls per NewMnemonic (quick R=4 for English/Japanese, R=2 others; thorough R=6, R=17 = every 1-byte fragmentation for n=12)", "each Read: symbolic fragment size 0..len(p), symbolic outcome nil/io.EOF/io.ErrUnexpectedEOF/other, bytes may accompany an error", "io.ReadFull / io.ReadAtLeast executed from their real SSA"},
+		Bounds:  []string{"word count n in {12,15,18,21,24}", "at most R Read calls per NewMnemonic (quick R=4 for English/Japanese, R=2 others; thorough R=6, R=17 = every 1-byte fragmentation for n=12)", "each Read: symbolic fragment size 0..len(p), symbolic outcome nil/io.EOF/io.ErrUnexpectedEOF/other error/error that calls itself temporary, bytes may accompany an error", "io.ReadFull / io.ReadAtLeast executed from their real SSA"},
 		Outside: []string{"sources needing more than R reads (paths end in an assumption)", "readers violating the io.Reader contract (n > len(p), n < 0)"},
 		Stubs:   []string{stubSHA, stubBig, stubStr},
 	}
@@ -892,7 +892,7 @@ func writeEvidence(c *CheckRun, wall float64) {
 	}
 	for f := range funcs {
 		if mod != "" && strings.Contains(f, mod) || strings.HasPrefix(f, "io.") {
-			if !strings.Contains(f, ".H_") && !strings.Contains(f, ".verif") && !strings.Contains(f, ".spec") {
+			if !strings.Contains(f, ".H_") && !strings.Contains(f, ".verif") && !strings.Contains(f, ".spec") && !strings.HasSuffix(f, ".itoa") && !strings.Contains(f, "verifReader") && !strings.Contains(f, "verifTempErr") {
 				fl = append(fl, f)
 			}
 		}
